@@ -52,6 +52,10 @@ func (i *Index) Set(slot uint64, time int64) error {
 	if slot < i.start || slot > i.end {
 		return NewErrSlotOutOfRange(i.start, i.end, slot)
 	}
+	if slot-i.start >= uint64(len(i.values)) {
+		// The capacity is independent of the slot range.
+		return NewErrSlotOutOfRange(i.start, i.end, slot)
+	}
 	i.values[slot-i.start] = time
 	return nil
 }
@@ -59,6 +63,10 @@ func (i *Index) Set(slot uint64, time int64) error {
 // Get gets the blocktime for the given slot.
 func (i *Index) Get(slot uint64) (int64, error) {
 	if slot < i.start || slot > i.end {
+		return 0, NewErrSlotOutOfRange(i.start, i.end, slot)
+	}
+	if slot-i.start >= uint64(len(i.values)) {
+		// The capacity is independent of the slot range.
 		return 0, NewErrSlotOutOfRange(i.start, i.end, slot)
 	}
 	return i.values[slot-i.start], nil
